@@ -139,8 +139,10 @@ def evaluate_against_oracle(node, f, stt, what, require_complete=False, nreal=3,
     orc = Oracle()
     first = None
     constant = True
-    for rp in real_points(inputs, nreal, nonneg=nonneg_reals):
-        for ip in int_points(inputs):
+    from vf.lang import delta_hit_points
+
+    for ip in int_points(inputs):
+        for rp in real_points(inputs, nreal, nonneg=nonneg_reals) + delta_hit_points(node, inputs, ip):
             pt = dict(ip)
             pt.update(rp)
             try:
